@@ -606,6 +606,12 @@ func (ts *TestScript) run() {
 		ts.t.Log(ts.abbrev(ts.log.String()))
 	}()
 	defer func() {
+		// The deferred functions run outside runLine: a Fatalf or Check in
+		// one of them must end the run as failed rather than let the
+		// failNow panic escape.
+		defer catchFailNow(func() {
+			ts.t.FailNow()
+		})
 		ts.deferred()
 	}()
 	script := ts.setup()
